@@ -233,7 +233,10 @@ fn run_job(job: &Job, yaml_path: &str) -> ChildOut {
         let _ = d.join();
     }
     if let Some((emitters, done)) = still_emitting {
-        if !join_all(emitters, Duration::from_secs(3)) {
+        // 6 s: a Block send on a full small-capacity stream spins through up to 200 sched_yield
+        // calls before it looks at the closed flag again; on an oversubscribed box that alone was
+        // measured at up to 5 s for a single emission
+        if !join_all(emitters, Duration::from_secs(6)) {
             out.emitter_stuck = true;
             out.stuck_at = done.iter().map(|d| { let v = d.load(Ordering::SeqCst); if v == usize::MAX { None } else { Some(v) } }).collect();
         }
